@@ -148,3 +148,42 @@ func VerifH2connBodyState(b interface{}) (n int, done bool, ok bool) {
 	n, done = rb.pipe.VerifH2connState()
 	return n, done, true
 }
+
+// PrioWalks runs on the serve loop (C36 on the wire): for every stream in the streams map its parent
+// id (0 = nil) and the number of steps its ancestor walk makes before it reaches nil (-1: it does not
+// within limit steps, i.e. the stream is below or on a cycle).  ok=false when the loop has ended.
+func (vc *VerifH2connConn) PrioWalks(limit int) (parent map[uint32]uint32, walk map[uint32]int, ok bool) {
+	sc := vc.sc
+	type res struct {
+		p map[uint32]uint32
+		w map[uint32]int
+	}
+	ch := make(chan res, 1)
+	fn := func(int) {
+		r := res{map[uint32]uint32{}, map[uint32]int{}}
+		for id, st := range sc.streams {
+			if st.parent != nil {
+				r.p[id] = st.parent.id
+			} else {
+				r.p[id] = 0
+			}
+			n := 0
+			for p := st; p != nil; p = p.parent {
+				n++
+				if n > limit {
+					n = -1
+					break
+				}
+			}
+			r.w[id] = n
+		}
+		ch <- r
+	}
+	select {
+	case sc.testHookCh <- fn:
+		r := <-ch
+		return r.p, r.w, true
+	case <-sc.doneServing:
+		return nil, nil, false
+	}
+}
